@@ -5,7 +5,9 @@ go 1.21
 require (
 	cuelang.org/go v0.8.1
 	github.com/machship/mpath v0.0.0
+	github.com/pelletier/go-toml/v2 v2.0.5
 	github.com/shopspring/decimal v1.3.1
+	gopkg.in/yaml.v2 v2.4.0
 )
 
 require (
@@ -13,11 +15,9 @@ require (
 	github.com/cockroachdb/apd/v3 v3.2.1 // indirect
 	github.com/google/go-cmp v0.6.0 // indirect
 	github.com/google/uuid v1.2.0 // indirect
-	github.com/pelletier/go-toml/v2 v2.0.5 // indirect
 	github.com/pkg/errors v0.9.1 // indirect
 	golang.org/x/net v0.22.0 // indirect
 	golang.org/x/text v0.14.0 // indirect
-	gopkg.in/yaml.v2 v2.4.0 // indirect
 	gopkg.in/yaml.v3 v3.0.1 // indirect
 )
 
